@@ -16,11 +16,11 @@ RULE = (
     "with tol=1e-10, against the same graph built from the exact twins. Non-trivial = an edge over >= 2 vertices of different pose types, or 3 "
     "vertices, or a graph with a loop."
 )
-BUDGET = {"quick": 16 * 400, "thorough": 16 * 10000}
+BUDGET = {"quick": 16 * 600, "thorough": 16 * 10000}
 TOLERANCES = {
-    "numeric Jacobian": "4*(h/2)*|d2e/d delta_k^2| (estimated from AD Jacobians at +-1e-4) + 128*eps*(1+S)*(1+|J|)/h + 1e-9, h = 1e-6",
+    "numeric Jacobian": "2*(h/2)*|d2e/d delta_k^2| (estimated from AD Jacobians at +-1e-4) + 128*eps*(1+S)*(1+|J|)/h + 1e-9, h = 1e-6",
     "optimum": "1e-3*(1+S) translation, 1e-3 rotation",
-    "convergence speed": "if the exact twin converges in n <= 20 iterations the numeric graph converges in <= 2n+5",
+    "convergence speed": "if the exact twin converges in n <= 20 iterations the numeric graph is within 1e-6 of its final chi2 after <= 2n+5 iterations",
     "chi2": "relative 1e-6 + 1e-9*|Omega|*(1+S)^2",
     "stationarity": "Newton decrement (exact reference system) <= 1e-10*chi2 + 1e-7*(1+chi2_initial)",
 }
@@ -74,7 +74,7 @@ def strategy_(g):
         return {"shape": "edge", "tag": tag, "ops": ops, "z": z, "info": g.sym_matrix(n, max_cond=1e2, kind=g.choice(["spd", "ident"]))}
     cond = g.choice([1.0, 1e2])
     nz = 0.05 / cond
-    case = GG.gen(g, bases=("se2", "se3", "r2", "r3"), n_pose=(3, 12), n_lm=(0, 3), n_loops=(0, 4), conds=(cond,), noise=(nz, nz), pert=(0.3, 0.3), features=("parallel", "reversed", "permute", "ids", "multifixed", "custom"), custom_flavour="num")
+    case = GG.gen(g, bases=("se2", "se3", "r2", "r3"), n_pose=(3, 12), n_lm=(0, 3), n_loops=(0, 4), conds=(cond,), noise=(nz, nz), pert=(0.3, 0.3), features=("parallel", "reversed", "permute", "ids", "multifixed", "custom", "quat-signs"), custom_flavour="num")
     for e in case["edges"]:
         if e["t"] == "odo":
             e["t"], e["fl"] = "relpose", "num"
@@ -165,7 +165,7 @@ def _check_edge(case, ctx):
             Jp = _ad_jacobians_at(tag, kinds, ops, z, vi, dp)[vi]
             Jm = _ad_jacobians_at(tag, kinds, ops, z, vi, -dp)[vi]
             d2 = np.abs(Jp[:, d] - Jm[:, d]) / (2 * hh)
-            tol[:, d] = 4 * (H / 2) * d2 + 128 * EPS * (1 + S_) * (1 + np.abs(Jr[:, d])) / H + 1e-9
+            tol[:, d] = 2 * (H / 2) * d2 + 128 * EPS * (1 + S_) * (1 + np.abs(Jr[:, d])) / H + 1e-9
         if tag in ("relpose", "prior") and kinds[0] == "se2":
             pass
         if ctx.check_close("numeric-jacobian-inaccurate", "numeric Jacobian[%d] of %s" % (vi, tag), J, Jr, tol, "+".join(kinds)):
@@ -205,12 +205,20 @@ def _check_graph(case, ctx):
         if not (dt <= 1e-3 * (1 + S_) and dr <= 1e-3):
             return ctx.fail("numeric-optimum-differs", "vertex #%d: numeric-Jacobian optimum differs from exact-Jacobian optimum by (%.3e, %.3e)" % (i, dt, dr))
     ctx.deviation("optimum numeric vs exact", worst, 1.0)
-    if r_ex.converged and r_ex.num_iterations <= 20:
-        ctx.deviation("iterations numeric vs exact", float(r_num.num_iterations), 2.0 * r_ex.num_iterations + 5)
-        if not (r_num.converged and r_num.num_iterations <= 2 * r_ex.num_iterations + 5):
-            return ctx.fail("numeric-graph-converges-slower", "exact-Jacobian graph converged in %d iterations, numeric-Jacobian graph: converged=%r after %d" % (r_ex.num_iterations, r_num.converged, r_num.num_iterations))
     maxinfo = max(float(np.abs(np.array(e["info"])).max()) for e in case["edges"])
     floor = 1e-9 * maxinfo * (1 + S_) ** 2
+    if r_ex.converged and r_ex.num_iterations <= 20:
+        # comparable speed, judged on the chi2 trajectory (the `converged` flag at tol=1e-10 can be defeated by the
+        # 1e-6-level noise of forward differences, which the property allows): the numeric graph must be within 1e-6 of
+        # the exact graph's final chi2 after at most 2n+5 iterations
+        target = float(r_ex.final_chi2) * (1 + 1e-6) + floor
+        traj = [float(r_num.initial_chi2)] + [float(it.chi2) for it in r_num.iteration_results if it.chi2 is not None]
+        first = next((j for j, c in enumerate(traj) if c <= target), None)
+        limit = 2 * r_ex.num_iterations + 5
+        if first is not None:
+            ctx.deviation("iterations numeric vs exact", float(first), float(limit))
+        if first is None or first > limit:
+            return ctx.fail("numeric-graph-converges-slower", "exact-Jacobian graph converged in %d iterations; the numeric-Jacobian graph reaches its chi2 after %r iterations (limit %d)" % (r_ex.num_iterations, first, limit))
     if not GC.rel_close(float(r_num.final_chi2), float(r_ex.final_chi2), 1e-6, floor):
         return ctx.fail("numeric-chi2-differs", "final chi2 %r (numeric) vs %r (exact)" % (r_num.final_chi2, r_ex.final_chi2))
     # stationarity of the numeric optimum w.r.t. the exact reference system
